@@ -1,85 +1,51 @@
-(* Proofs/C16Source.v -- the source text Model/Channel.v was transcribed from; compared with the text
-   regenerated from /repo on every run (Gen/FactsC16.v, tools/facts_C16.py). *)
-From Coq Require Import ZArith List String.
-From GV Require Import Lib.Str Gen.FactsC16.
+(* Proofs/C16Source.v -- what Model/Channel.v assumes about the source, as MEANING (paths / effects), compared
+   with the facts regenerated from /repo on every run (Gen/FactsC16.v, tools/facts_C16.py).
+
+   event codes of the paths of Channel.__connect__ (helpers inlined, tests in NNF):
+     T1=1 T0=2 (connected property true / false)  ACQ=3 REL=4 (the channel's asyncio.Lock)
+     CREATE=5 (await loop.create_connection / create_unix_connection)  OK=6  EXC=7 (Exception caught)
+     ESC=8 (BaseException not caught)  STORE=9 (result stored as the channel's protocol)  RERAISE=10  RET=11
+     (return the stored protocol attribute, no re-check)  RAISE_OTHER=12  CLEAR=13 *)
+From Coq Require Import ZArith List.
+From GV Require Import Gen.FactsC16.
 Import ListNotations.
-Open Scope string_scope.
+Open Scope Z_scope.
 
-Definition exp_Channel_connected : list string :=
-  ["return self._protocol is not None and (not self._protocol.handler.connection_lost) and (not self._protocol.connection.is_closing())"].
-Definition exp_Channel_connect : list string :=
-  ["if not self._connected:";
-   "    async with self._connect_lock:";
-   "        self._state = _ChannelState.CONNECTING";
-   "        if not self._connected:";
-   "            try:";
-   "                self._protocol = await self._create_connection()";
-   "            except Exception:";
-   "                self._state = _ChannelState.TRANSIENT_FAILURE";
-   "                raise";
-   "            else:";
-   "                self._state = _ChannelState.READY";
-   "return cast(H2Protocol, self._protocol)"].
-Definition exp_Channel_close : list string :=
-  ["if self._protocol is not None:";
-   "    self._protocol.processor.close()";
-   "    del self._protocol";
-   "self._state = _ChannelState.IDLE"].
-Definition exp_Channel_aexit : list string :=
-  ["self.close()"].
-Definition exp_Channel_del : list string :=
-  ["if self._protocol is not None:";
-   "    message = 'Unclosed connection: {!r}'.format(self)";
-   "    warnings.warn(message, ResourceWarning)";
-   "    if self._loop.is_closed():";
-   "        return";
-   "    else:";
-   "        self.close()";
-   "        self._loop.call_exception_handler({'message': message})"].
-Definition exp_Handler_close : list string :=
-  ["self.connection_lost = True"].
-Definition exp_EventsProcessor_close : list string :=
-  ["self.connection.close()";
-   "self.handler.close()";
-   "for stream in self.streams.values():";
-   "    stream.__terminated__(reason)";
-   "if hasattr(self, 'processors'):";
-   "    del self.processors"].
-Definition exp_EventsProcessor_process_connection_terminated : list string :=
-  ["self.close(reason='Received GOAWAY frame, closing connection; error_code: {}'.format(event.error_code))"].
-Definition exp_H2Protocol_connection_lost : list string :=
-  ["self.processor.close(reason='Connection lost')"].
-Definition exp_Connection_is_closing : list string :=
-  ["if hasattr(self, '_transport'):";
-   "    return self._transport.is_closing()";
-   "else:";
-   "    return True"].
-Definition exp_Connection_close : list string :=
-  ["if hasattr(self, '_transport'):";
-   "    self._transport.close()";
-   "    del self._transport";
-   "    if hasattr(self._connection, '_frame_dispatch_table'):";
-   "        del self._connection._frame_dispatch_table";
-   "if self._ping_handle is not None:";
-   "    self._ping_handle.cancel()";
-   "if self._close_by_ping_handler is not None:";
-   "    self._close_by_ping_handler.cancel()"].
+(* Model/Channel.v `enter` / `locked_section` / `attempt` / `run_caller`(PAttempt) / `ret`:
+   - fast path: connected -> return the protocol, no suspension                          [T1; RET]
+   - else take the lock; RE-CHECK; connected meanwhile -> release, return                [T0; ACQ; T1; REL; RET]
+   - else exactly one connection attempt inside the lock, nothing else awaited there;
+     on success the protocol is stored at once, lock released, returned WITHOUT re-check [T0; ACQ; T0; CREATE; OK; STORE; REL; RET]
+   - an Exception is re-raised to this caller, lock released, nothing stored             [T0; ACQ; T0; CREATE; EXC; RERAISE; REL]
+   - a BaseException (CancelledError) escapes, lock released, nothing stored             [T0; ACQ; T0; CREATE; ESC; REL] *)
+Definition exp_connect_paths : list (list Z) :=
+  [[1; 11];
+   [2; 3; 1; 4; 11];
+   [2; 3; 2; 5; 6; 9; 4; 11];
+   [2; 3; 2; 5; 7; 10; 4];
+   [2; 3; 2; 5; 8; 4]].
 
-Lemma source_as_transcribed :
-  src_Channel_connected = map s2z exp_Channel_connected /\
-  src_Channel_connect = map s2z exp_Channel_connect /\
-  src_Channel_close = map s2z exp_Channel_close /\
-  src_Channel_aexit = map s2z exp_Channel_aexit /\
-  src_Channel_del = map s2z exp_Channel_del /\
-  src_Handler_close = map s2z exp_Handler_close /\
-  src_EventsProcessor_close = map s2z exp_EventsProcessor_close /\
-  src_EventsProcessor_process_connection_terminated = map s2z exp_EventsProcessor_process_connection_terminated /\
-  src_H2Protocol_connection_lost = map s2z exp_H2Protocol_connection_lost /\
-  src_Connection_is_closing = map s2z exp_Connection_is_closing /\
-  src_Connection_close = map s2z exp_Connection_close /\
-  async_Channel_connect = true /\
-  dec_Channel_connected = [s2z "property"] /\
-  async_Channel_close = false /\
-  channel_protocol_class_attr = s2z "None" /\
-  handler_connection_lost_class_attr = s2z "False".
+(* `connected` = protocol present /\ handler not closed /\ connection not closing, probed on real objects in the
+   states: fresh | connection_lost delivered | Connection.close() ran | transport closing |
+           GOAWAY (NO_ERROR,0) | (NO_ERROR,2^31-1) | (NO_ERROR,2^31-1,debug) | (INTERNAL,1) | (ENHANCE_YOUR_CALM,2^31-1,debug) *)
+Definition exp_connected_by_state : list Z := [1; 0; 0; 0; 0; 0; 0; 0; 0].
+(* per state: every registered stream terminated, transport.close() called, connection.is_closing():
+   connection_lost and every GOAWAY run processor.close() (model: conn_lost / proc_close); keepalive's
+   Connection.close() closes the transport WITHOUT terminating the streams (model: KAClose) *)
+Definition exp_effects_by_state : list (list Z) :=
+  [[0; 0; 0]; [1; 1; 1]; [0; 1; 1]; [0; 0; 1]; [1; 1; 1]; [1; 1; 1]; [1; 1; 1]; [1; 1; 1]; [1; 1; 1]].
+(* Channel.close() in EVERY state (not only when connected): all registered streams terminated, transport closed
+   exactly once, the channel holds no protocol and is not connected, a second close() changes nothing, the lock
+   object (and with it the queue of waiters) is kept (model: ChClose) *)
+Definition exp_close_row : list Z := [1; 1; 1; 0; 1; 1].
+Definition exp_aexit_row : list Z := [1; 1; 1; 0; 1].
+
+Lemma source_meaning :
+  connect_paths = exp_connect_paths /\
+  connected_by_state = exp_connected_by_state /\
+  effects_by_state = exp_effects_by_state /\
+  close_by_state = repeat exp_close_row 9 /\
+  aexit_by_state = repeat exp_aexit_row 9 /\
+  close_without_protocol = [1; 0] /\
+  connection_close_twice = [1; 1; 0; 1; 1; 0].
 Proof. vm_compute. repeat split; reflexivity. Qed.
